@@ -129,6 +129,10 @@ type UP4 struct {
 
 	p4RtTranslator *P4rtTranslator
 
+	// sessionMu serialises the requests of the PFCP associations (one goroutine each): it guards the
+	// counters, meters and UE address maps below, which every request reads and writes.
+	sessionMu sync.Mutex
+
 	// TODO: create UP4Store object and move these fields there
 	counters []counter
 	// tunnelPeerMu guards concurrent R/W access to tunnel peers,
@@ -542,7 +546,12 @@ func (up4 *UP4) listenToDDNs() {
 			digestData := up4.p4client.GetNextDigestData()
 
 			ueAddr := binary.BigEndian.Uint32(digestData)
-			if fseid, exists := up4.ueAddrToFSEID[ueAddr]; exists {
+
+			up4.sessionMu.Lock()
+			fseid, exists := up4.ueAddrToFSEID[ueAddr]
+			up4.sessionMu.Unlock()
+
+			if exists {
 				notifier.Notify(fseid)
 			}
 		}
@@ -1807,6 +1816,9 @@ func (up4 *UP4) SendMsgToUPF(method upfMsgType, all PacketForwardingRules, updat
 
 	up4Log := logger.PfcpLog.With("method-type", method, "all", all, "updated-rules", updated)
 	up4Log.Debugln("sending PFCP message to UP4..")
+
+	up4.sessionMu.Lock()
+	defer up4.sessionMu.Unlock()
 
 	switch method {
 	case upfMsgTypeAdd:
